@@ -529,10 +529,10 @@ package server
 //@ may_emit ListServices, CreateTemp, JsonEncode, FileClose, FsRename, FileRemove, MarshalService, FsTruncate
 //@ ensures[C12] never_truncates_the_live_file: none(FsTruncate)
 //@ ensures[C12] only_a_rename_replaces_the_state_file: all(FsRename, $1 == r.statePath) && all(CreateTemp, $1 == dirOf(r.statePath))
-//@ ensures[C12] complete_before_it_replaces: first(JsonEncode(_, _), FileClose(_)) && first(FileClose(_), FsRename(_, _)) && first(ListServices(_), JsonEncode(_, _)) && count(FsRename(_, _)) <= 1
-//@ ensures[C12] success_means_replaced: result == nil ==> count(FsRename(_, _)) == 1 && count(ListServices(_)) == 1
-//@ ensures[C12] failure_leaves_the_old_file: result != nil ==> none(FsRename)
-//@ ensures[C12] snapshots_are_serialized: first(Lock(r, lockid("server.Router.snapshotLock")), ListServices(_)) && !held(r.snapshotLock) && (result == nil ==> first(FsRename(_, _), Unlock(r, lockid("server.Router.snapshotLock"))))
+//@ ensures[C12] complete_before_it_replaces: first(JsonEncode(_, _), FileClose(_)) && first(FileClose(_), FsRename(_, _, _)) && first(ListServices(_), JsonEncode(_, _)) && count(FsRename(_, _, _)) <= 1
+//@ ensures[C12] success_means_replaced: result == nil ==> count(FsRename(_, _, _)) == 1 && emitted(FsRename(_, _, true)) && count(ListServices(_)) == 1
+//@ ensures[C12] failure_leaves_the_old_file: result != nil ==> none(FsRename(_, _, true))
+//@ ensures[C12] snapshots_are_serialized: first(Lock(r, lockid("server.Router.snapshotLock")), ListServices(_)) && !held(r.snapshotLock) && (result == nil ==> first(FsRename(_, _, _), Unlock(r, lockid("server.Router.snapshotLock"))))
 //@ ensures[C17] no_timed_wait: now == old(now)
 //@ emits Snapshot(r)
 
@@ -542,7 +542,7 @@ package server
 //@ assigns Router.services, ServiceMap.requestServiceMap, mapsof(ServiceMap.services), Service.options, `os.File`.content
 //@ may_emit Snapshot, SetService, CheckAvail, RebuildTable, ListServices, CreateTemp, JsonEncode, FileClose, FsRename, FileRemove, MarshalService, FsTruncate
 //@ emits Install(r, s) when err == nil
-//@ ensures[C05] conflicting_pair_rejected: err != nil ==> err == ErrorHostInUse && none(SetService)
+//@ ensures[C05,C06] conflicting_pair_rejected: err != nil ==> err == ErrorHostInUse && none(SetService) && none(RemoveService) && none(RebuildTable)
 //@ ensures[C05,C02] installed_in_one_critical_section: err == nil ==> count(SetService(_, _)) == 1 && emitted(SetService(_, s)) && count(Lock(r, lockid("server.Router.serviceLock"))) == 1 && first(Lock(r, lockid("server.Router.serviceLock")), SetService(_, _)) && first(SetService(_, _), Unlock(r, lockid("server.Router.serviceLock")))
 //@ ensures[C05] checked_and_claimed_under_one_lock: count(CheckAvail(_, _)) == 1 && emitted(CheckAvail(_, s.name)) && first(Lock(r, lockid("server.Router.serviceLock")), CheckAvail(_, _)) && first(CheckAvail(_, _), Unlock(r, lockid("server.Router.serviceLock"))) && (err == nil ==> first(CheckAvail(_, _), SetService(_, _)))
 //@ ensures[C07] held_requests_follow_the_redeploy: err == nil && old(haskey(r.services.services, s.name)) && old(r.services.services[s.name]) != s ==> old(r.services.services[s.name]).active == s.active
@@ -556,7 +556,7 @@ package server
 //@ requires service != nil && r.services != nil && service.pauseController != nil && !isnil(service.middleware) && (targetSlot == TargetSlotRollout ==> service.active != nil)
 //@ attr blocks
 //@ assigns *
-//@ ensures[C01] waits_for_every_new_target_first: all(UpdateLB, before(WaitHealthy($1, deployTimeout), UpdateLB($0, $1, targetSlot, $3)) && $0 == ref(service))
+//@ ensures[C01,C06] waits_for_every_new_target_first: all(UpdateLB, before(WaitHealthy($1, deployTimeout), UpdateLB($0, $1, targetSlot, $3)) && $0 == ref(service))
 //@ ensures[C01,C06] unhealthy_targets_never_installed: emitted(WaitHealthy(_, _)) && none(UpdateLB) ==> err != nil && none(Install) && all(NewLB, emitted(Dispose($0)))
 //@ ensures[C01,C02] swap_then_install: first(UpdateLB(_, _, _, _), Install(_, _)) && count(Install(_, _)) <= 1 && count(UpdateLB(_, _, _, _)) <= 1
 //@ ensures[C02,C03] old_targets_drained_after_the_swap: all(DrainAll, before(Install(_, _), DrainAll($0, drainTimeout)) && emitted(UpdateLB(_, _, _, $0)) && $1 == drainTimeout)
@@ -649,7 +649,7 @@ package server
 //@ func server.NormalizePathPrefixes
 //@ assigns nothing
 //@ ensures[C04] never_empty: len(result) > 0 && (len(pathPrefixes) == 0 ==> len(result) == 1 && result[0] == "/") && (len(pathPrefixes) > 0 ==> len(result) == len(pathPrefixes))
-//@ ensures[C04] normalised: forall i int :: 0 <= i && i < len(result) ==> normPrefix(result[i])
+//@ ensures[C04,C05] normalised: forall i int :: 0 <= i && i < len(result) ==> normPrefix(result[i])
 //@ ensures fresh_list: fresh(ref(result))
 //@ loop 1 invariant[C04] normalised_so_far: len(result) == idx && idx <= len(coll) && coll == pathPrefixes && fresh(ref(result)) && forall i int :: 0 <= i && i < len(result) ==> normPrefix(result[i])
 
@@ -1016,7 +1016,7 @@ package server
 //@ assigns *
 //@ may_emit *
 //@ ensures[C06] option_errors_touch_nothing: none(DeployTargets) ==> err != nil && none(Install) && none(UpdateLB) && none(NewLB)
-//@ ensures[C17] timeouts_passed_in_position: all(DeployTargets, $3 == deployTimeout && $4 == drainTimeout && $2 == TargetSlotActive) && count(DeployTargets(_, _, _, _, _)) <= 1
+//@ ensures[C17,C01,C03] timeouts_passed_in_position: all(DeployTargets, $3 == deployTimeout && $4 == drainTimeout && $2 == TargetSlotActive) && count(DeployTargets(_, _, _, _, _)) <= 1
 //@ ensures[C17] bounded_by_deploy_plus_drain_timeout: now <= old(now) + max(deployTimeout, 0) + max(drainTimeout, 0)
 
 //@ func (*server.Router).SetRolloutTargets
@@ -1026,7 +1026,7 @@ package server
 //@ assigns *
 //@ may_emit *
 //@ ensures[C06] unknown_service_rejected: none(DeployTargets) ==> err == ErrorServiceNotFound
-//@ ensures[C17] timeouts_passed_in_position: all(DeployTargets, $3 == deployTimeout && $4 == drainTimeout && $2 == TargetSlotRollout) && count(DeployTargets(_, _, _, _, _)) <= 1
+//@ ensures[C17,C01,C03] timeouts_passed_in_position: all(DeployTargets, $3 == deployTimeout && $4 == drainTimeout && $2 == TargetSlotRollout) && count(DeployTargets(_, _, _, _, _)) <= 1
 //@ ensures[C17] bounded_by_deploy_plus_drain_timeout: now <= old(now) + max(deployTimeout, 0) + max(drainTimeout, 0)
 
 //@ func (*server.Router).SetRolloutSplit
@@ -1036,7 +1036,7 @@ package server
 //@ assigns Service.rolloutController, `os.File`.content
 //@ may_emit Snapshot, RolloutSplit, ListServices, CreateTemp, JsonEncode, FileClose, FsRename, FileRemove, MarshalService, FsTruncate
 //@ ensures[C06,C10] unknown_service_rejected: none(RolloutSplit) ==> err == ErrorServiceNotFound
-//@ ensures[C12,C11] snapshot_taken: last_is(Snapshot(r))
+//@ ensures[C12,C11,C03,C07,C08] snapshot_taken: last_is(Snapshot(r))
 //@ ensures[C17] returns_without_waiting: now == old(now)
 
 //@ func (*server.Router).StopRollout
@@ -1045,7 +1045,7 @@ package server
 //@ attr blocks
 //@ assigns Service.rolloutController, `os.File`.content
 //@ may_emit Snapshot, RolloutSplit, ListServices, CreateTemp, JsonEncode, FileClose, FsRename, FileRemove, MarshalService, FsTruncate
-//@ ensures[C12,C11] snapshot_taken: last_is(Snapshot(r))
+//@ ensures[C12,C11,C03,C07,C08] snapshot_taken: last_is(Snapshot(r))
 //@ ensures[C17] returns_without_waiting: now == old(now)
 
 //@ func (*server.Router).PauseService
@@ -1057,7 +1057,7 @@ package server
 //@ ensures[C06] unknown_service_rejected: none(PauseSvc) ==> err == ErrorServiceNotFound
 //@ ensures[C17] timeouts_passed_in_position: all(PauseSvc, $1 == drainTimeout && $2 == pauseTimeout)
 //@ ensures[C17] bounded_by_drain_timeout: now <= old(now) + max(drainTimeout, 0)
-//@ ensures[C12,C11] snapshot_taken: last_is(Snapshot(r))
+//@ ensures[C12,C11,C03,C07,C08] snapshot_taken: last_is(Snapshot(r))
 
 //@ func (*server.Router).StopService
 //@ emits CmdStop(r, name, drainTimeout, message, isnil(result))
@@ -1068,7 +1068,7 @@ package server
 //@ ensures[C06] unknown_service_rejected: none(StopSvc) ==> err == ErrorServiceNotFound
 //@ ensures[C17,C08] arguments_passed_in_position: all(StopSvc, $1 == drainTimeout && $2 == message)
 //@ ensures[C17] bounded_by_drain_timeout: now <= old(now) + max(drainTimeout, 0)
-//@ ensures[C12,C11] snapshot_taken: last_is(Snapshot(r))
+//@ ensures[C12,C11,C03,C07,C08] snapshot_taken: last_is(Snapshot(r))
 
 //@ func (*server.Router).ResumeService
 //@ emits CmdResume(r, name, isnil(result))
@@ -1078,7 +1078,7 @@ package server
 //@ may_emit *
 //@ ensures[C06] unknown_service_rejected: none(ResumeSvc) ==> err == ErrorServiceNotFound
 //@ ensures[C17] returns_without_waiting: now == old(now)
-//@ ensures[C12,C11] snapshot_taken: last_is(Snapshot(r))
+//@ ensures[C12,C11,C03,C07,C08] snapshot_taken: last_is(Snapshot(r))
 
 //@ func (*server.Router).RemoveService
 //@ emits CmdRemove(r, name, isnil(result))
@@ -1089,7 +1089,7 @@ package server
 //@ ensures[C05,C17] probes_stopped_then_pairs_released: err == nil ==> first(DisposeService(_), RemoveService(_, name)) && count(RemoveService(_, _)) == 1
 //@ ensures[C06] unknown_service_rejected: err != nil ==> err == ErrorServiceNotFound && none(RemoveService) && none(DisposeService)
 //@ ensures[C17] returns_without_waiting: now == old(now)
-//@ ensures[C12,C11] snapshot_taken: last_is(Snapshot(r))
+//@ ensures[C12,C11,C03,C07,C08] snapshot_taken: last_is(Snapshot(r))
 //@ ensures[C18] lock_free: !held(r.serviceLock)
 
 //@ func (*server.Router).serviceForHost
@@ -1200,3 +1200,9 @@ package server
 //@ may_emit *
 //@ ensures[C20,C17] arguments_reach_the_router_in_position: count(CmdRemove(_, _, _)) == 1 && emitted(CmdRemove(old(h.router), args.Service, _))
 //@ ensures[C20] error_is_reported_to_the_client: emitted(CmdRemove(_, _, result == nil))
+
+//@ func (*server.targetResponseWriter).Flush
+//@ requires r.inflightRequest != nil
+//@ assigns @flushFrame
+//@ may_emit Flush
+//@ ensures[C02,C03] flushing_is_not_an_upgrade: r.inflightRequest.hijacked == old(r.inflightRequest.hijacked)
